@@ -23,6 +23,8 @@ Streams
   late     : serving side with (apduTimeout, applicationTimeout, segmentTimeout) in all 27
              orderings of {1000,3000,6000}: the application answers late but within its
              allowance while the client retransmits; also end-to-end (two stacks)
+  repeat   : the same peer sends the same invoke ID + octets again AFTER the transaction
+             completed: a new request, indicated again, answered with the CURRENT answer
   nextid   : get_next_invoke_id alone for every starting cursor 0..255 against
              random / adversarial occupancies
   corpus   : corpus/C11/*.json (pre-fix witnesses) first
@@ -744,6 +746,51 @@ def reenter_scenario(ctx, rng, label):
     return L
 
 
+def repeat_scenario(ctx, rng, label):
+    """after a transaction COMPLETED, the same peer sending the same invoke ID and the same
+    octets again is a NEW request (a client polling by re-submitting one request object - the
+    stack wrote the assigned ID into it -, or request 257 after the counter wrapped): it must
+    be handed to the application again and answered with the application's CURRENT answer.
+    The stub application's answers change from request to request."""
+    cfg = T.default_cfg()
+    L = T.Lock(cfg, [])
+    L.label = label
+    O = Oracle(ctx, L, label)
+
+    def step(fn, *a):
+        n0 = len(L.events)
+        r = fn(*a)
+        for i in range(n0, len(L.events)):
+            O.after(L.events[i], L.replies[i])
+        return r
+    p, inv = rng.randrange(3), rng.choice([1, 9, 255, 0])
+    req = {"t": 0, "id": inv, "svc": 200, "maxResp": 5, "maxSegs": 0, "sa": rng.choice([0, 1]), "hex": payload(rng, rng.choice([0, 4, 20])).hex()}
+    kinds = ["complex", "simple", "error"]
+    for round_ in range(rng.choice([2, 3, 4])):
+        r = step(L.frame, p, req)
+        n_ind = sum(1 for o in r["out"] if o["o"] == "ind" and o["peer"] == p)
+        if n_ind != 1:
+            O.fail("repeat-after-completion",
+                   "request #%d with the same peer, invoke ID %d and octets, sent AFTER the previous one had been answered, "
+                   "was not handed to the application (outputs: %r)" % (round_ + 1, inv, r["out"]), L.events[-1])
+            return L
+        k = kinds[round_ % 3] if rng.random() < 0.5 else "complex"
+        current = bytes([0xC0 + round_]) * (3 + round_)
+        a = {"complex": {"t": 3, "id": inv, "svc": 200, "hex": current.hex()},
+             "simple": {"t": 2, "id": inv, "svc": 200},
+             "error": {"t": 5, "id": inv, "svc": 200, "hex": "91%02x" % round_}}[k]
+        r = step(L.response, p, a)
+        sent = [o for o in r["out"] if o["o"] == "send" and o["peer"] == p]
+        want_n = len(bytes.fromhex(a.get("hex", "")))
+        if len(sent) != 1 or sent[0]["h"][0] != a["t"] or sent[0]["n"] != want_n or \
+                sent[0]["d"] != T.fnv64(bytes.fromhex(a.get("hex", ""))):
+            O.fail("repeat-after-completion", "the application's current answer to request #%d did not go out as given: %r" % (
+                round_ + 1, r["out"]), L.events[-1])
+        if rng.random() < 0.3:
+            step(L.tick, rng.choice([1000, 500000, 2000000]))
+    return L
+
+
 def independent_scenario(ctx, rng, label):
     """equal IDs from different peers are served independently (deterministic shape)"""
     cfg = T.default_cfg()
@@ -844,6 +891,8 @@ def shard_mix(ctx, spec):
             locks.append(independent_scenario(ctx, rng, label))
         elif kind == "reenter":
             locks.append(reenter_scenario(ctx, rng, label))
+        elif kind == "repeat":
+            locks.append(repeat_scenario(ctx, rng, label))
         elif kind == "late":
             combos = [(x, y, z) for x in TIMEOUTS for y in TIMEOUTS for z in TIMEOUTS]
             locks.append(late_answer_scenario(ctx, rng, label, combos[i % 27]))
@@ -911,24 +960,27 @@ def run(ctx):
         L = replay_events(ctx, "corpus/" + name, c["reset"], c["events"])
         T.compare(ctx, "corpus", [L])
     q = ctx.quick
-    n_mix, ev_mix = (48, 260) if q else (1000, 420)
+    n_mix, ev_mix = (32, 240) if q else (1000, 420)
     n_wrap, ev_wrap = (6, 330) if q else (64, 600)
     per = max(1, n_mix // 16)
     specs = [("mix", lo, min(lo + per, n_mix), ev_mix) for lo in range(0, n_mix, per)]
     specs += [("wrap", i, i + 1, ev_wrap) for i in range(n_wrap)]
     specs += [("exhaust", i, i + 1, 0) for i in range(2 if q else 16)]
     specs += [("indep", 0, 8 if q else 64, 0)]
+    specs += [("repeat", 0, 40 if q else 800, 0)]
     n_late = 54 if q else 2160
     specs += [("late", lo, min(lo + n_late // 4, n_late), 0) for lo in range(0, n_late, n_late // 4)]
-    n_re = 160 if q else 3200
+    n_re = 80 if q else 3200
     specs += [("reenter", lo, min(lo + n_re // 8, n_re), 0) for lo in range(0, n_re, n_re // 8)]
     core.run_shards(ctx, "harness.c11", "shard_mix", specs)
     lc = e2e_late_cases()
+    if q:
+        lc = lc[::2]
     core.run_shards(ctx, "harness.c11", "e2e_late_shard", [lc[i::4] for i in range(4)])
     rng = ctx.sub_rng("c11/nextid")
     cases = nextid_cases(ctx, rng)
     if q:
-        cases = cases[::6]
+        cases = cases[::12]
     chunks = [cases[i::16] for i in range(16)]
     core.run_shards(ctx, "harness.c11", "shard_nextid", [c for c in chunks if c])
     # application level (coordinator's end-to-end stream, implementation side only): complete stacks with the
